@@ -111,6 +111,7 @@ def run(ctx):
     borrow(ctx, 'C09', ['WRAPPER'], 'the wrappers\' handling of a short or failed transfer: count returned = count accounted for, failing re-seek returns 0')
     borrow(ctx, 'C09', ['STATE-PAIR'], 'a failing write of the SD2 resource fork must not return with the descriptors swapped: the failing open then closes the wrong one and leaks the other')
     borrow(ctx, 'C05', ['READ-COUNT'], 'after a short transfer the count a read function reports must be what the primitive delivered, not what was asked for')
+    borrow(ctx, 'C06', ['BLOCK-FILL'], 'a short read into a block buffer must not make the decoder consume bytes that were never delivered')
 
     from engine.parseloops import chunk_loop_eof as _cle, neg_skip as _nsk
     ctx.rule('CHUNK-LOOP-EOF', 'every header-parser loop that starts a round by reading a chunk marker (`m` / `h` field of psf_binheader_readf) leaves when that read delivers nothing: an exit under '
